@@ -113,10 +113,13 @@ Step ==
                 b7 == r.ok /\ yielded /\ p.a = "cancel" /\ s.k \in {"Suspend", "Running", "Ready"}
                 b8 == r.ok /\ yielded /\ s.k = "Complete" /\ (p.a # "return" \/ s.r # p.v)
                 b9 == r.ok /\ yielded /\ s.k = "Error" /\ p.a = "panic" /\ s.m # p.v
+                b14 == r.ok /\ yielded /\ s.k = "Error" /\ p.a = "fault"
+                         /\ (IF p.v = 900000 THEN s.m \notin {900001, 900002} ELSE s.m # p.v)
+                b15 == r.ok /\ yielded /\ p.a = "fault" /\ s.k # "Error"
                 b10 == r.ok /\ yielded /\ p.a = "return" /\ s.k # "Complete"
                 b11 == r.ok /\ yielded /\ p.a = "panic" /\ s.k # "Error"
                 b12 == expcb.co # 0
-                b13 == r.ok /\ yielded /\ s.k = "Error" /\ p.a # "panic"
+                b13 == r.ok /\ yielded /\ s.k = "Error" /\ p.a \notin {"panic", "fault"}
             IN /\ (b1 => Viol("result_state", <<c, s, t>>))
                /\ (b2 => Viol("refused_but_changed", <<c, t>>))
                /\ (b3 => Viol("refused_legal", <<c, t>>))
@@ -130,8 +133,10 @@ Step ==
                /\ (b11 => Viol("panic_lost", <<c, s, p>>))
                /\ (b12 => Viol("callback_missing", expcb))
                /\ (b13 => Viol("spurious_error", <<c, s, p>>))
+               /\ (b14 => Viol("fault_message", <<c, s, p>>))
+               /\ (b15 => Viol("fault_not_error", <<c, s, p>>))
                /\ nviol' = nviol + Count(b1) + Count(b2) + Count(b3) + Count(b4) + Count(b5) + Count(b6)
-                            + Count(b7) + Count(b8) + Count(b9) + Count(b10) + Count(b11) + Count(b12) + Count(b13)
+                            + Count(b7) + Count(b8) + Count(b9) + Count(b10) + Count(b11) + Count(b12) + Count(b13) + Count(b14) + Count(b15)
                /\ inres' = NoRes /\ expcb' = NoCb
                /\ UNCHANGED <<scen, tst, pend>>
        [] ev = "state" ->
@@ -142,11 +147,17 @@ Step ==
             /\ UNCHANGED <<scen, pend, inres, expcb>>
        [] ev = "cur" ->
             /\ (r.some => Viol("current_leak", <<>>))
-            /\ nviol' = nviol + Count(r.some)
+            /\ (r.susp => Viol("suspender_leak", <<>>))
+            /\ nviol' = nviol + Count(r.some) + Count(r.susp)
             /\ UNCHANGED <<scen, tst, pend, inres, expcb>>
        [] ev = "died" ->
             /\ Viol(r.how, r.msg) /\ nviol' = nviol + 1 /\ inres' = NoRes /\ expcb' = NoCb
             /\ UNCHANGED <<scen, tst, pend>>
+       [] ev = "post_b" -> UNCHANGED <<scen, tst, pend, inres, expcb, nviol>>
+       [] ev = "post_e" ->
+            LET bad == r.ret # 0 \/ r.ms > 500 IN
+            /\ (bad => Viol("thread_not_normal", r))
+            /\ nviol' = nviol + Count(bad) /\ UNCHANGED <<scen, tst, pend, inres, expcb>>
        [] ev = "cend" -> UNCHANGED <<scen, tst, pend, inres, expcb, nviol>>
 
 Spec == Init /\ [][Step]_vars
